@@ -41,6 +41,7 @@ let show_pc = function
   | WLoop -> "WLoop" | WTake -> "WTake" | WGot k -> "WGot " ^ string_of_int (int_of_nat k) | WDone -> "WDone"
   | CIdle ops -> "CIdle/" ^ string_of_int (List.length ops) | CCall _ -> "CCall" | CStopping _ -> "CStopping"
   | CJoin (i, _) -> "CJoin " ^ string_of_int (int_of_nat i)
+  | WInit -> "WInit" | CFault _ -> "CFault"
 let show_op = function PRun k -> "run " ^ string_of_int (int_of_nat k) | PTake -> "take" | PStop -> "stop" | PSize -> "size"
 
 let validate (nw : int) (maxq : int) (progs : uop list list) (lines : string array) : unit =
@@ -166,6 +167,21 @@ let validate (nw : int) (maxq : int) (progs : uop list list) (lines : string arr
          | p -> rej "%s calls run(%s), the model is at %s" t k (show_pc p));
         do_step (LNext (nat_of_int i)) "run()";
         if nw = 0 then Hashtbl.replace inline_expect i (int_of_string k)
+    | "e" :: t :: "init" :: _ ->
+        let i = model_of t in
+        if i >= nw then rej "%s ran the thread-init callback but is not a pool thread" t;
+        (match pc i with
+         | WInit -> do_step (LInit (nat_of_int i)) "thread-init callback"
+         | p -> rej "%s ran the thread-init callback, the model is at %s" t (show_pc p))
+    | "CRASH" :: _ ->
+        (* the only abort the model knows: Thread::join of a thread that was joined before (second stop()) *)
+        let faulting = List.filter (fun i -> match pc i with
+          | CJoin (j, _) -> int_of_nat j < nw && joined j !sys.evs
+          | _ -> false) (List.init nthreads (fun i -> i)) in
+        (match faulting with
+         | i :: _ -> do_step (LJoin (nat_of_int i)) "assertion in Thread::join";
+                     (match pc i with CFault _ -> () | p -> rej "the model does not fault (at %s)" (show_pc p))
+         | [] -> rej "implementation crashed, the model predicts no fault")
     | "e" :: t :: "x" :: k :: _ ->
         let i = model_of t in
         if i < nw then
